@@ -62,7 +62,7 @@ def run(d, tier="quick"):
             print("patch does not apply:", out); return 2
         for p in props:
             rc, out = sh("cd %s && DEEPDIFF_REPO=%s timeout 1800 ./check %s --tier %s %s" % (os.environ.get("SEEDED_VERIF", "/verif"), wt, p, tier, os.environ.get("SEEDED_ARGS", "")))
-            lines = [l for l in out.splitlines() if l.startswith(("VIOLATION", "KNOWN-FINDING", "OK ", "FAIL "))]
+            lines = [l for l in out.splitlines() if l.startswith(("VIOLATION", "KNOWN-FINDING", "OK ", "FAIL ", "SOURCE-TIE-NOTE", "EXTENSION-NOTE"))]
             results[p] = {"rc": rc, "lines": [l[:300] for l in lines]}
     finally:
         sh("git -C /repo worktree remove --force %s" % wt)
